@@ -58,6 +58,12 @@ def C(name, pattern, polls=2):
     return {"name": name, "kind": "sub", "pattern": pattern, "polls": polls}
 
 
+def L(name, pattern, polls=3, how="break"):
+    """Polling consumer (the queue master's style): ``polls`` times {subscribe, take at most one message, stop early
+    by ``break`` + close() or by close() inside the loop}; what it leaves behind must stay intact and in order."""
+    return {"name": name, "kind": "poll", "pattern": pattern, "polls": polls, "how": how}
+
+
 def K(name, pattern):
     return {"name": name, "kind": "cb", "pattern": pattern}
 
@@ -82,7 +88,14 @@ SCENARIOS = [
     S("1pub_1sub_prefix_channel_names", [P("P0", "jobs.1", "jobs.10"), C("C0", "jobs.1", 1)]),
     S("1pub_1sub_suffix_pattern", [P("P0", "j.7.cfg", "j.7.cfg.bak"), C("C0", "j.*.cfg", 1)]),
     S("1pub_1sub_charclass_pattern", [P("P0", "a.x", "a.z"), C("C0", "a.[xy]", 1)]),
+    # polling consumers that stop early while more messages of the channel are pending, then come back
+    S("1pub_1poller_break_existing", [P("P0", "a.x", "a.x", "a.x"), L("L0", "a.x", 3, "break")], pre=["a.x"]),
+    S("1pub_1poller_close_inside_fresh", [P("P0", "n.x", "n.x", "n.x"), L("L0", "n.*", 3, "close")]),
+    S("2poller_preloaded_backlog", [L("L0", "a.x", 2, "break"), L("L1", "a.*", 2, "close")],
+      preload=["a.x", "a.x", "a.x", "a.x"]),
     # ---- three application threads
+    S("1pub_1poller_1sub_backlog", [P("P0", "a.x", "a.x"), L("L0", "a.x", 2, "break"), C("C0", "a.?", 1)],
+      preload=["a.x", "a.x", "a.x"]),
     S("2pub_fresh_shared_1sub_wild", [P("P0", "n.x"), P("P1", "n.x"), C("C0", "n.*")]),
     S("2pub_existing_1sub_exact", [P("P0", "a.x", "a.x"), P("P1", "a.x"), C("C0", "a.x")], pre=["a.x"]),
     S("2pub_two_channels_1sub_wild", [P("P0", "a.x", "a.y"), P("P1", "a.y", "a.x"), C("C0", "a.*")], pre=["a.x"]),
@@ -260,6 +273,24 @@ class Harness:
                         log.append(m.data)
             return body
 
+        def poll_body(name, pattern, polls, how):
+            log = logs[name] = []
+            patterns[name] = pattern
+
+            def body():
+                for _ in range(polls):
+                    sub = tr.subscribe(pattern)
+                    if how == "break":
+                        for m in sub:
+                            log.append(m.data)
+                            break
+                        sub.close()
+                    else:
+                        for m in sub:
+                            log.append(m.data)
+                            sub.close()
+            return body
+
         def cb_body(name, pattern):
             log = logs[name] = []
             patterns[name] = pattern
@@ -275,6 +306,8 @@ class Harness:
                 s.spawn(th["name"], pub_body(th["name"], th["channels"]))
             elif th["kind"] == "sub":
                 s.spawn(th["name"], sub_body(th["name"], th["pattern"], th["polls"]))
+            elif th["kind"] == "poll":
+                s.spawn(th["name"], poll_body(th["name"], th["pattern"], th["polls"], th["how"]))
             else:
                 s.spawn(th["name"], cb_body(th["name"], th["pattern"]))
         s.run()
